@@ -124,7 +124,7 @@ Definition srv_op (so : server * outbox) (op : list tok) : list tok * (server * 
       else if beq name (bs "CLOSE") then
         match rest with
         (* the client closes its socket: the server reads EOF, marks the connection Closing and
-           cleanup_connections removes it - unless it still has subscriptions (class closing-leak) *)
+           cleanup_connections removes it with its subscriptions *)
         | TI c :: _ => ([], (close_conn s c, ob_put ob c []))
         | _ => ([TB (bs "BADOP")], so)
         end
